@@ -207,8 +207,11 @@ Proof.
   intro p.
   assert (forall i g f, forall a o s r', on_input p i g f = ((a, o, s), r') -> length o = length (p_outs p)) as Hon.
   { intros i g f a o s r' E; apply on_input_parts in E as [E _]; subst; reflexivity. }
+  assert (forall i f, forall a o s r', on_output p i f = ((a, o, s), r') -> length o = length (p_outs p)) as Hout.
+  { intros i f a o s r' E; apply on_output_parts in E as [E _]; exact E. }
   intros o auxs outs sc r H; destruct o; cbn [local_step] in H;
     try (eapply staged_parts_len in H; [exact H|apply Hon]);
+    try (eapply staged_parts_len in H; [exact H|apply Hout]);
     try (apply on_input_parts in H as [H _]; subst; reflexivity);
     try (apply on_output_parts in H as [H _]; exact H);
     try (inversion H; subst; reflexivity).
@@ -277,6 +280,7 @@ Proof.
     destruct (p_cores p) eqn:Ecs; [apply SR_same, same_skel_refl|].
     destruct (in_index p i true) as [[[n c0] ax]|o]; [|apply SR_same, same_skel_refl].
     destruct (a_entropy ax); [apply SR_same, same_skel_refl|].
+    destruct (finalized ax); [apply SR_same, same_skel_refl|].
     destruct (c_short c0); [apply SR_same, same_skel_refl|].
     match goal with |- context[add_outputs ?p1 ?l] => destruct (add_outputs p1 l) as [p2|] eqn:E end.
     + unfold publish; destruct (sanity p2); cbn [fst]; [|apply SR_same, same_skel_refl].
@@ -286,6 +290,7 @@ Proof.
     destruct (in_index p i true) as [[[n c0] ax]|o]; [|apply SR_same, same_skel_refl].
     destruct (a_entropy ax); [apply SR_same, same_skel_refl|].
     destruct (negb (reissue_validate a)); [apply SR_same, same_skel_refl|].
+    destruct (finalized ax); [apply SR_same, same_skel_refl|].
     match goal with |- context[add_outputs ?p1 ?l] => destruct (add_outputs p1 l) as [p2|] eqn:E end.
     + unfold publish.
       match goal with |- context[sanity ?q] => destruct (sanity q) end; cbn [fst]; [|apply SR_same, same_skel_refl].
@@ -321,28 +326,41 @@ Proof.
 Qed.
 
 (* ---------- the creator ---------- *)
-Lemma new_outs_inv : forall l p p', new_outs p l = IOk p' -> exists l', add_outputs p l' = Some p'.
+Lemma new_ins_inv : forall l p p', new_ins p l = Some p' ->
+  forallb (fun a => ia_cls a =? 0) l = true /\ add_inputs p l = Some p'.
 Proof.
-  induction l as [|a l IH]; intros p p' H; cbn in H.
-  - inversion H; subst; exists []; reflexivity.
-  - destruct (oa_cls a =? 2); [discriminate|].
-    destruct (add_output p (to_outp a)) as [p1|] eqn:E; [|discriminate].
-    apply IH in H as [l' H]. exists (to_outp a :: l'); cbn; rewrite E; exact H.
+  induction l as [|a l IH]; intros p p' H; cbn in H; cbn [forallb add_inputs]; [auto|].
+  destruct (ia_cls a =? 0); cbn [negb] in H; [|discriminate].
+  destruct (add_input p a) as [p1|]; [|discriminate]. apply IH in H as [H1 H2]. rewrite H1; auto.
+Qed.
+
+Lemma new_outs_inv : forall l p p', new_outs p l = IOk p' ->
+  forallb outarg_valid l = true /\ add_outputs p (map to_outp l) = Some p'.
+Proof.
+  induction l as [|a l IH]; intros p p' H; cbn in H; cbn [forallb map add_outputs].
+  - inversion H; auto.
+  - destruct (outarg_valid a); cbn [negb] in H; [|discriminate].
+    destruct (add_output p (to_outp a)) as [p1|] eqn:E; [|discriminate]. apply IH in H as [H1 H2]. rewrite H1; auto.
+Qed.
+
+Lemma init_inv : forall ins outs fb p0, init ins outs fb = IOk p0 ->
+  forallb (fun a => ia_cls a =? 0) ins = true /\ forallb outarg_valid outs = true /\
+  exists p, add_inputs (empty_pset fb) ins = Some p /\ add_outputs p (map to_outp outs) = Some p0.
+Proof.
+  intros ins outs fb p0 H; unfold init in H.
+  destruct (new_ins (empty_pset fb) ins) as [p|] eqn:E; [|discriminate].
+  apply new_ins_inv in E as [E1 E2]. apply new_outs_inv in H as [H1 H2]. repeat split; auto. exists p; auto.
 Qed.
 
 Lemma init_cm : forall ins outs fb p0, init ins outs fb = IOk p0 -> cm p0.
 Proof.
-  intros ins outs fb p0 H; unfold init in H.
-  destruct (add_inputs (empty_pset fb) ins) as [p|] eqn:E; [|discriminate].
-  apply new_outs_inv in H as [l' H]. eapply add_outputs_cm; eauto. eapply add_inputs_cm; eauto.
+  intros ins outs fb p0 H. apply init_inv in H as (_ & _ & p & E & H). eapply add_outputs_cm; eauto. eapply add_inputs_cm; eauto.
   unfold cm; cbn; auto.
 Qed.
 
 Lemma init_nd : forall ins outs fb p0, init ins outs fb = IOk p0 -> nd p0.
 Proof.
-  intros ins outs fb p0 H; unfold init in H.
-  destruct (add_inputs (empty_pset fb) ins) as [p|] eqn:E; [|discriminate].
-  apply new_outs_inv in H as [l' H].
+  intros ins outs fb p0 H. apply init_inv in H as (_ & _ & p & E & H).
   apply add_outputs_inv in H as (_ & _ & _ & _ & _ & A6 & _). unfold nd; rewrite A6.
   eapply add_inputs_nd; eauto. unfold nd; cbn; constructor.
 Qed.
@@ -453,6 +471,9 @@ Proof.
   destruct r0; inversion H; subst; auto; congruence.
 Qed.
 
+Lemma outcome_eq_dec : forall a b : outcome, {a = b} + {a <> b}.
+Proof. decide equality. Qed.
+
 Lemma publish_err : forall p q, snd (publish p q) = Err -> fst (publish p q) = p.
 Proof. intros p q; unfold publish; destruct (sanity q); cbn; [discriminate|reflexivity]. Qed.
 
@@ -501,7 +522,7 @@ Proof.
   destruct (owned_validate p (p_auxs p) (bl_owned a)) as [auxs1|auxs1 o1]; cbn [bres_auxs] in F1; subst auxs1;
     [|inversion H; subst; auto].
   destruct (is_fully_blinded p); [inversion H; subst; congruence|].
-  destruct (existsb (fun x => (Z.of_N (g_nin p) - 1 <? Z.of_N (fst x))%Z) (bl_iss a)); [inversion H; subst; auto|].
+  match type of H with (if ?b then _ else _) = _ => destruct b end; [inversion H; subst; auto|].
   destruct (negb (outargs_validate p (bl_last a) (sort_by_idx (bl_outs a)))); [inversion H; subst; auto|].
   pose proof (prevout_loop_same (bl_owned a) (p_cores p) 0 (p_auxs p)) as F2.
   destruct (prevout_loop (p_cores p) 0 (p_auxs p) (bl_owned a)) as [auxs2|auxs2 o2]; cbn [bres_auxs] in F2; subst auxs2;
@@ -537,6 +558,7 @@ Proof.
     destruct (p_cores p) eqn:Ecs; [reflexivity|].
     destruct (in_index p i true) as [[[n c0] ax]|o]; [|reflexivity].
     destruct (a_entropy ax); [reflexivity|].
+    destruct (finalized ax); [reflexivity|].
     destruct (c_short c0); [reflexivity|].
     match goal with |- context[add_outputs ?p1 ?l] => destruct (add_outputs p1 l) as [p2|] eqn:E end; [|reflexivity].
     apply publish_err.
@@ -544,6 +566,7 @@ Proof.
     destruct (in_index p i true) as [[[n c0] ax]|o]; [|reflexivity].
     destruct (a_entropy ax); [reflexivity|].
     destruct (negb (reissue_validate a)); [reflexivity|].
+    destruct (finalized ax); [reflexivity|].
     match goal with |- context[add_outputs ?p1 ?l] => destruct (add_outputs p1 l) as [p2|] eqn:E end; [|reflexivity].
     apply publish_err.
   - (* sign *) apply Hloc; [reflexivity| |exact He]. cbn [local_step]. intros parts r.
@@ -567,7 +590,7 @@ Example blinder_refused_leaves_nothing :
   exists p0, init [{| ia_cls := 0; ia_t := 0; ia_idx := 0; ia_seq := 0; ia_height := 0; ia_time := 0 |}]
                   [{| oa_cls := 0; oa_amount := 1000; oa_script := Some (SWpkh 1); oa_bk := 1; oa_bidx := 0 |}] None = IOk p0 /\
     let p := run p0 [ONwUtxo 0%Z 0; OUtxoRp 0%Z true] in step p (OBlind blind_refused) = (p, Err).
-Proof. eexists; split; vm_compute; reflexivity. Qed.
+Proof. eexists; split; [vm_compute; reflexivity|]. vm_compute. reflexivity. Qed.
 
 (* the old counterexample of atomicity (shallow Copy): outputs locked, AddInIssuance fails — and now leaves nothing *)
 Example issue_with_outputs_locked :
@@ -637,17 +660,59 @@ Proof.
 Qed.
 
 (* the operations for which the claim holds; AddInIssuance, AddInReissuance and the blinder are missing *)
-Definition frozen_scope (o : op) : bool :=
-  match o with
-  | OAddInputs _ | OAddOutputs _ | OSign _ _ _ _ _ _ | OTapKeySig _ _ | OTapScriptSig _ _
-  | OFinalize _ | OMaybeFinalize _ | OFinalizeAll | OMaybeFinalizeAll | OSetMod _ => true
-  | _ => false
-  end.
+(* the blinder's issuance writes skip finalized inputs (fix e4278d0) *)
+Lemma fold_iss_frozen : forall (iss : list (N * bool)) l m (x : aux),
+  (forall y, In y iss -> N.to_nat (fst y) <> m) -> nth_error l m = Some x ->
+  nth_error (fold_left (fun l y =>
+               match nth_error l (N.to_nat (fst y)) with
+               | Some ax => set_nth (N.to_nat (fst y)) (set_a_issblind (snd y) ax) l
+               | None => l end) iss l) m = Some x.
+Proof.
+  induction iss as [|y iss IH]; intros l m x Hne Hm; cbn [fold_left]; auto.
+  apply IH; [intros z Hz; apply Hne; right; auto|].
+  destruct (nth_error l (N.to_nat (fst y))); auto.
+  rewrite nth_set_nth_neq; auto. apply Hne; left; auto.
+Qed.
 
-(* full statement (refuted below):
-     forall p o n a, is_multi_part o = true -> nth_error (p_auxs p) n = Some a -> finalized a = true ->
-       nth_error (p_auxs (fst (step p o))) n = Some a *)
-Theorem finalized_inputs_frozen_partial : forall p o n a,
+Lemma do_blind_frozen : forall p a auxs outs sc r m x, do_blind p a = ((auxs, outs, sc), r) ->
+  nth_error (p_auxs p) m = Some x -> finalized x = true -> nth_error auxs m = Some x.
+Proof.
+  intros p a auxs outs sc r m x H Hm Hf.
+  destruct (outcome_eq_dec r Ok) as [->|Hr].
+  2:{ apply do_blind_not_ok in H; auto. inversion H; subst; auto. }
+  unfold do_blind in H.
+  destruct (negb (sanity p)); [inversion H|].
+  destruct (negb (needs_blinding p)); [inversion H|].
+  destruct (bl_owned a) as [|o0 orest] eqn:Eo; [inversion H|]. rewrite <- Eo in H.
+  pose proof (owned_validate_same p (bl_owned a) (p_auxs p)) as F1.
+  destruct (owned_validate p (p_auxs p) (bl_owned a)) as [auxs1|auxs1 o1]; cbn [bres_auxs] in F1; subst auxs1;
+    [|inversion H; subst; auto].
+  destruct (is_fully_blinded p); [inversion H; subst; auto|].
+  match type of H with (if ?b then _ else _) = _ => destruct b eqn:Eg end; [inversion H|].
+  destruct (negb (outargs_validate p (bl_last a) (sort_by_idx (bl_outs a)))); [inversion H|].
+  pose proof (prevout_loop_same (bl_owned a) (p_cores p) 0 (p_auxs p)) as F2.
+  destruct (prevout_loop (p_cores p) 0 (p_auxs p) (bl_owned a)) as [auxs2|auxs2 o2]; cbn [bres_auxs] in F2; subst auxs2;
+    [|inversion H; subst; auto].
+  destruct (negb (outargs_proofs p a (sort_by_idx (bl_outs a)))); [inversion H|].
+  destruct (bl_gfail a =? 1); [inversion H|].
+  destruct (sort_by_idx (bl_outs a)) as [|x0 xs] eqn:Es; [inversion H|]. rewrite <- Es in H.
+  destruct (blind_outs a (sort_by_idx (bl_outs a)) (p_outs p)) as [outs' done].
+  destruct (negb done); [inversion H|].
+  match type of H with (if ?b then _ else _) = _ => destruct b end; inversion H; subst; auto.
+  apply fold_iss_frozen; auto.
+  intros y Hy Heq. subst m.
+  assert (existsb (fun x1 => (Z.of_N (g_nin p) - 1 <? Z.of_N (fst x1))%Z
+            || match nth_error (p_auxs p) (N.to_nat (fst x1)) with Some ax => finalized ax | None => false end) (bl_iss a) = true) as Ht.
+  { apply existsb_exists; exists y; split; auto. rewrite Hm, Hf. apply orb_true_r. }
+  congruence.
+Qed.
+
+(* the multi-part operations, the finalizers (and the caller's flag change) *)
+Definition frozen_scope (o : op) : bool :=
+  is_multi_part o || match o with OFinalize _ | OMaybeFinalize _ | OMaybeFinalizeAll | OSetMod _ => true | _ => false end.
+
+(* ===== an already finalized input is never altered: any packet, every multi-part operation and every finalizer ===== *)
+Theorem finalized_inputs_frozen : forall p o n a,
   frozen_scope o = true -> nth_error (p_auxs p) n = Some a -> finalized a = true ->
   nth_error (p_auxs (fst (step p o))) n = Some a.
 Proof.
@@ -660,6 +725,28 @@ Proof.
   - destruct (negb (forallb outarg_valid l)); [auto|].
     destruct (add_outputs p (map to_outp l)) as [p'|] eqn:E; [|auto]. unfold publish; destruct (sanity p'); cbn [fst]; [|auto].
     apply add_outputs_inv in E as (_ & _ & _ & _ & _ & _ & A7 & _). rewrite A7; auto.
+  - (* issue *) unfold do_issue.
+    destruct (negb (issue_validate a0)); [auto|].
+    destruct (p_cores p) eqn:Ecs; [auto|].
+    destruct (in_index p i true) as [[[m c0] ax]|o] eqn:Ei; [|auto].
+    destruct (a_entropy ax); [auto|].
+    destruct (finalized ax) eqn:Efin; [auto|].
+    destruct (c_short c0); [auto|].
+    apply in_index_inl in Ei as [_ Hax].
+    match goal with |- context[add_outputs ?p1 ?l] => destruct (add_outputs p1 l) as [p2|] eqn:E end; [|auto].
+    unfold publish; destruct (sanity p2); cbn [fst]; [|auto].
+    apply add_outputs_inv in E as (_ & _ & _ & _ & _ & _ & A7 & _). rewrite A7. cbn [upd p_auxs].
+    rewrite nth_set_nth_neq; auto. intro Heq; subst m. congruence.
+  - (* reissue *) unfold do_reissue.
+    destruct (in_index p i true) as [[[m c0] ax]|o] eqn:Ei; [|auto].
+    destruct (a_entropy ax); [auto|].
+    destruct (negb (reissue_validate a0)); [auto|].
+    destruct (finalized ax) eqn:Efin; [auto|].
+    apply in_index_inl in Ei as [_ Hax].
+    match goal with |- context[add_outputs ?p1 ?l] => destruct (add_outputs p1 l) as [p2|] eqn:E end; [|auto].
+    unfold publish. match goal with |- context[sanity ?q] => destruct (sanity q) end; cbn [fst]; [|auto].
+    apply add_outputs_inv in E as (_ & _ & _ & _ & _ & _ & A7 & _). cbn [upd p_auxs]. rewrite A7.
+    rewrite nth_set_nth_neq; auto. intro Heq; subst m. congruence.
   - (* sign *) cbn [local_step].
     destruct (in_index p i true) as [[[m c] x]|o] eqn:E; [|cbn; auto].
     match goal with |- context[on_input p i true ?f] => destruct (on_input p i true f) as [[[auxs outs] sc] r] eqn:Eo end.
@@ -671,6 +758,8 @@ Proof.
   - cbn [local_step].
     match goal with |- context[on_input p i true ?f] => destruct (on_input p i true f) as [[[auxs outs] sc] r] eqn:Eo end.
     unfold staged_parts; cbn [snd]. destruct r; cbn; auto. eapply on_input_frozen; eauto. intros c0 a0 H0; cbn beta; rewrite H0; reflexivity.
+  - (* blinder *) cbn [local_step].
+    destruct (do_blind p a0) as [[[auxs outs] sc] r] eqn:E. cbn. eapply do_blind_frozen; eauto.
   - (* finalize *) cbn [local_step].
     destruct ((i <? 0)%Z || (Z.of_nat (length (p_auxs p)) <=? i)%Z); [cbn; auto|].
     destruct (nth_error (p_cores p) (Z.to_nat i)) as [c|]; [|cbn; auto].
@@ -691,93 +780,150 @@ Proof.
     cbn. eapply finalize_loop_frozen; eauto. apply maybe_finalize_local_keeps.
 Qed.
 
-(* a signed and finalized p2wpkh input, then AddInIssuance on it: accepted, the input is altered *)
-Theorem finalized_inputs_frozen_refuted :
-  exists ins outs fb p0 ops o a, init ins outs fb = IOk p0 /\ is_multi_part o = true /\
-    nth_error (p_auxs (run p0 ops)) 0 = Some a /\ finalized a = true /\
-    snd (step (run p0 ops) o) = Ok /\ nth_error (p_auxs (fst (step (run p0 ops) o))) 0 <> Some a.
-Proof.
-  exists [mk_in 0 0 0 0], [], None. eexists.
-  exists [OWUtxo 0%Z (Some {| u_script := SWpkh 0; u_conf := false |}); OSign 0%Z true 1 (Some 0) None None; OFinalize 0%Z].
-  exists (OIssue 0%Z issue_plain). eexists.
-  split; [vm_compute; reflexivity|]. split; [reflexivity|]. split; [vm_compute; reflexivity|].
-  split; [vm_compute; reflexivity|]. split; [vm_compute; reflexivity|].
-  vm_compute. intro H. discriminate H.
-Qed.
+(* the old counterexample (before fix e4278d0 AddInIssuance accepted a finalized input and altered it): now refused *)
+Example issue_on_finalized_input_refused :
+  exists p0, init [mk_in 0 0 0 0] [] None = IOk p0 /\
+    let p := run p0 [OWUtxo 0%Z (Some {| u_script := SWpkh 0; u_conf := false |}); OSign 0%Z true 1 (Some 0) None None; OFinalize 0%Z] in
+    step p (OIssue 0%Z issue_plain) = (p, Err).
+Proof. eexists; split; [vm_compute; reflexivity|]. vm_compute. reflexivity. Qed.
 
 (* ===== C11: the packet serialises and re-parses to itself ===== *)
-(* full statement (refuted below):
-     forall ins outs fb p0 ops, init ins outs fb = IOk p0 -> rt (run p0 ops) = true *)
+(* Two things are not decided by the library: the caller may write any bit set into Global.TxModifiable (the
+   parser accepts 0..7), and the scalar a non-last blinder publishes comes from its generator (the parser rejects
+   a scalar that occurs twice). The theorem takes operation lists in which the caller's flags are three bits and
+   the generator's scalars are fresh. *)
+Definition op_ok (p : pset) (o : op) : Prop :=
+  match o with
+  | OSetMod (Some f) => f < 8
+  | OBlind a => bl_last a = true \/ existsb (fun y => y =? bl_scalar a) (g_scalars p) = false
+  | _ => True
+  end.
+Fixpoint good_run (p : pset) (ops : list op) : Prop :=
+  match ops with [] => True | o :: r => op_ok p o /\ good_run (fst (step p o)) r end.
 
-(* a failed AddInWitnessScript (no witness utxo) leaves the script: serialises, no longer parses *)
-Theorem reachable_roundtrips_refuted_failed_setter :
-  exists ins outs fb p0 o, init ins outs fb = IOk p0 /\ rt p0 = true /\
-    snd (step p0 o) = Err /\ rt (fst (step p0 o)) = false.
+Definition flags_ok (p : pset) : bool := match g_flags p with None => true | Some f => f <? 8 end.
+
+Record J (p : pset) : Prop := {
+  J_sane : sanity p = true; J_cm : cm p; J_flags : flags_ok p = true; J_sc : nodup_n (g_scalars p) = true;
+  J_cores : forallb core_reparses (p_cores p) = true; J_auxs : forallb aux_reparses (p_auxs p) = true;
+  J_outs : forallb out_reparses (p_outs p) = true }.
+
+Lemma J_rt : forall p, J p -> rt p = true.
 Proof.
-  exists [mk_in 0 0 0 0], [], None. eexists. exists (OWScript 0%Z (Some (SMs 2))).
-  split; [vm_compute; reflexivity|]. repeat split; vm_compute; reflexivity.
+  intros p [H1 [C1 C2] H3 H4 H5 H6 H7]. unfold rt, flags_ok in *.
+  rewrite H1, H4, H5, H6, H7, C1, C2, !N.eqb_refl, H3. reflexivity.
 Qed.
 
-(* what the creator builds from well-formed arguments does round-trip *)
-Definition inarg_plain (a : inarg) : Prop := ia_cls a = 0.
-Definition outarg_plain (a : outarg) : Prop := oa_cls a = 0 /\ oa_bk a <> 2.
-
-Lemma new_outs_map : forall l p p', new_outs p l = IOk p' -> add_outputs p (map to_outp l) = Some p'.
+Lemma forallb_set_nth {A} : forall (P : A -> bool) n x l, forallb P l = true -> P x = true -> forallb P (set_nth n x l) = true.
 Proof.
-  induction l as [|a l IH]; intros p p' H; cbn in H; cbn [map add_outputs].
-  - inversion H; reflexivity.
-  - destruct (oa_cls a =? 2); [discriminate|].
-    destruct (add_output p (to_outp a)) as [p1|] eqn:E; [|discriminate]. apply IH; exact H.
+  intros P n x l; revert n; induction l as [|h t IH]; intros [|n] Hl Hx; cbn in *; auto;
+    apply andb_prop in Hl as [H1 H2]; rewrite ?Hx, ?H1; cbn; auto.
 Qed.
 
-Lemma forallb_repeat {A} : forall (f : A -> bool) x n, f x = true -> forallb f (repeat x n) = true.
-Proof. intros f x n H; induction n; cbn; auto. rewrite H; auto. Qed.
-
-Lemma forallb_map_Forall {A B} : forall (f : B -> bool) (g : A -> B) (P : A -> Prop) l,
-  (forall a, P a -> f (g a) = true) -> Forall P l -> forallb f (map g l) = true.
+Lemma forallb_nth {A} : forall (P : A -> bool) l n x, forallb P l = true -> nth_error l n = Some x -> P x = true.
 Proof.
-  intros f g P l Hp Hl; induction Hl as [|a l Ha Hl IH]; cbn; auto. rewrite (Hp a Ha); auto.
+  intros P l; induction l as [|h t IH]; intros [|n] x Hl Hn; cbn in *; try discriminate;
+    apply andb_prop in Hl as [H1 H2]; [inversion Hn; subst; auto|eauto].
 Qed.
 
-Lemma existsb_map_false {A B} : forall (f : B -> bool) (g : A -> B) l,
-  (forall a, f (g a) = false) -> existsb f (map g l) = false.
-Proof. intros f g l H; induction l; cbn; auto. rewrite H; auto. Qed.
-
-Theorem reachable_roundtrips_partial : forall ins outs fb p0,
-  init ins outs fb = IOk p0 -> Forall inarg_plain ins -> Forall outarg_plain outs -> rt p0 = true.
+Lemma nodup_n_snoc : forall l s, nodup_n l = true -> existsb (fun y => y =? s) l = false -> nodup_n (l ++ [s]) = true.
 Proof.
-  intros ins outs fb p0 H Hi Ho.
-  pose proof (init_cm _ _ _ _ H) as [C1 C2]. unfold init in H.
-  destruct (add_inputs (empty_pset fb) ins) as [p|] eqn:E; [|discriminate].
-  apply new_outs_map in H.
-  apply add_inputs_inv in E as (A1 & A2 & A3 & A4 & A5 & A6 & A7 & A8 & _).
-  apply add_outputs_inv in H as (B1 & B2 & B3 & B4 & B5 & B6 & B7 & B8 & _).
-  cbn in A1, A2, A3, A4, A5, A6, A7, A8.
-  assert (p_cores p0 = map to_core ins) as Hc by congruence.
-  assert (p_auxs p0 = repeat aux0 (length ins)) as Ha by congruence.
-  assert (p_outs p0 = map to_outp outs) as Hout by (rewrite B8, A8; reflexivity).
-  assert (g_flags p0 = Some 3) as Hf by congruence.
-  assert (g_scalars p0 = []) as Hs by congruence.
-  unfold rt, sanity, sanity_parts. rewrite Hs, Hf, Ha, Hout, Hc.
-  rewrite (forallb_repeat in_sane aux0 _ eq_refl), (forallb_repeat aux_reparses aux0 _ eq_refl).
-  rewrite (existsb_map_false o_blinded to_outp outs (fun _ => eq_refl)).
-  rewrite (forallb_map_Forall out_sane to_outp outarg_plain outs); auto.
-  2:{ intros a [Hc0 _]. unfold out_sane, to_outp; cbn. rewrite Hc0; reflexivity. }
-  rewrite (forallb_map_Forall out_reparses to_outp outarg_plain outs); auto.
-  2:{ intros a [Hc0 Hb]. unfold out_reparses, to_outp; cbn. rewrite Hc0; cbn.
-      apply N.eqb_neq in Hb; rewrite Hb; reflexivity. }
-  rewrite (forallb_map_Forall core_reparses to_core inarg_plain ins); auto.
-  2:{ intros a Hc0. unfold inarg_plain in Hc0. unfold core_reparses, to_core; cbn. rewrite Hc0; reflexivity. }
-  rewrite C1, C2, Hc, Hout, !map_length, !N.eqb_refl. reflexivity.
+  induction l as [|x l IH]; intros s Hn He; cbn in *; auto.
+  apply andb_prop in Hn as [H1 H2]. apply orb_false_elim in He as [E1 E2].
+  rewrite existsb_app; cbn. rewrite (N.eqb_sym s x), E1, orb_false_r. rewrite H1; cbn. apply IH; auto.
 Qed.
 
-(* 253 inputs in one AddInputs, an input with both locktimes, a height-only input: the shapes that did NOT
-   round-trip before fix: commits c50dc2e / 1bba04e do now (regression witnesses, also in corpus/hist.txt) *)
-Example roundtrip_regressions :
-  (exists p0, init [] [] None = IOk p0 /\
-     rt (fst (step p0 (OAddInputs (map (fun k => mk_in 0 (N.of_nat k) 0 0) (seq 0 253))))) = true)
-  /\ (exists p0, init [mk_in 0 0 100 500000005; mk_in 1 0 100 0] [] None = IOk p0 /\ rt p0 = true).
-Proof. split; eexists; (split; [vm_compute; reflexivity|]); vm_compute; reflexivity. Qed.
+(* what aux_reparses looks at *)
+Definition tapview (a : aux) := (a_tapss a, a_tapbip32 a).
+Lemma aux_reparses_tapview : forall a b, tapview a = tapview b -> aux_reparses a = aux_reparses b.
+Proof. intros a b H; unfold tapview in H; inversion H as [[H1 H2]]; unfold aux_reparses; rewrite H1, H2; reflexivity. Qed.
+
+Definition keeps_rp (f : core -> aux -> aux * lres) : Prop :=
+  forall c a, aux_reparses a = true -> aux_reparses (fst (f c a)) = true.
+Definition lok_same (f : core -> aux -> aux * lres) : Prop := forall c a a', f c a = (a', LOk) -> a' = a.
+
+Ltac crush_matches :=
+  repeat match goal with
+  | |- context[match ?x with _ => _ end] => destruct x
+  end.
+
+Ltac tv := let c := fresh in let a := fresh in let H := fresh in
+  intros c a H; erewrite aux_reparses_tapview; [exact H|]; cbv beta; crush_matches; reflexivity.
+
+Ltac lok := let c := fresh in let a := fresh in let a' := fresh in let H := fresh in
+  intros c a a' H; cbv beta in H;
+  repeat match type of H with context[match ?x with _ => _ end] => destruct x end;
+  try (inversion H; reflexivity); try discriminate.
+
+(* one input written through on_input *)
+Lemma on_input_J : forall p i g f auxs outs sc r, on_input p i g f = ((auxs, outs, sc), r) -> keeps_rp f ->
+  forallb aux_reparses (p_auxs p) = true ->
+  forallb aux_reparses auxs = true /\ outs = p_outs p /\ sc = g_scalars p.
+Proof.
+  intros p i g f auxs outs sc r H Hk Ha; unfold on_input in H.
+  destruct (in_index p i g) as [[[n c] a]|o] eqn:E; [|inversion H; subst; auto].
+  apply in_index_inl in E as [_ Hn]. pose proof (Hk c a (forallb_nth _ _ _ _ Ha Hn)) as Hx.
+  destruct (f c a) as [a' r']; inversion H; subst. repeat split. apply forallb_set_nth; auto.
+Qed.
+
+Lemma on_input_sane : forall p i g f auxs outs sc, on_input p i g f = ((auxs, outs, sc), Ok) -> lok_same f ->
+  sanity p = true -> sanity_parts auxs outs sc = true.
+Proof.
+  intros p i g f auxs outs sc H Hl Hs; unfold on_input in H.
+  destruct (in_index p i g) as [[[n c] a]|o] eqn:E; [|inversion H; subst; exact Hs].
+  apply in_index_inl in E as [_ Hn].
+  destruct (f c a) as [a' r'] eqn:Ef. inversion H as [[H1 H2 H3 H4]]. destruct r'; cbn [finish] in H4.
+  - destruct (sanity_parts (set_nth n a' (p_auxs p)) (p_outs p) (g_scalars p)); [reflexivity|discriminate].
+  - apply Hl in Ef; subst a'. rewrite (set_nth_same _ _ _ Hn). exact Hs.
+  - discriminate.
+  - discriminate.
+Qed.
+
+Lemma on_output_J : forall p i f auxs outs sc r, on_output p i f = ((auxs, outs, sc), r) ->
+  (forall o, out_reparses (fst (f o)) = out_reparses o) -> forallb out_reparses (p_outs p) = true ->
+  forallb out_reparses outs = true /\ auxs = p_auxs p /\ sc = g_scalars p.
+Proof.
+  intros p i f auxs outs sc r H Hk Ha; unfold on_output in H.
+  destruct (out_index p i) as [[n o]|o0] eqn:E; [|inversion H; subst; auto].
+  unfold out_index in E. destruct (i <? 0)%Z; [discriminate|]. destruct (Z.of_N (g_nout p) - 1 <? i)%Z; [discriminate|].
+  destruct (nth_error (p_outs p) (Z.to_nat i)) as [o1|] eqn:En; [|discriminate]. inversion E; subst.
+  pose proof (Hk o) as Hx. rewrite (forallb_nth _ _ _ _ Ha En) in Hx.
+  destruct (f o) as [o' r']; inversion H; subst. repeat split. apply forallb_set_nth; auto.
+Qed.
+
+Lemma on_output_sane : forall p i f auxs outs sc, on_output p i f = ((auxs, outs, sc), Ok) ->
+  (forall o o', f o = (o', LOk) -> o' = o) -> sanity p = true -> sanity_parts auxs outs sc = true.
+Proof.
+  intros p i f auxs outs sc H Hl Hs; unfold on_output in H.
+  destruct (out_index p i) as [[n o]|o0] eqn:E; [|inversion H; subst; exact Hs].
+  destruct (f o) as [o' r'] eqn:Ef. inversion H as [[H1 H2 H3 H4]]. destruct r'; cbn [finish] in H4.
+  - destruct (sanity_parts (p_auxs p) (set_nth n o' (p_outs p)) (g_scalars p)); [reflexivity|discriminate].
+  - apply Hl in Ef; subst o'.
+    unfold out_index in E. destruct (i <? 0)%Z; [discriminate|]. destruct (Z.of_N (g_nout p) - 1 <? i)%Z; [discriminate|].
+    destruct (nth_error (p_outs p) (Z.to_nat i)) as [o1|] eqn:En; [|discriminate]. inversion E; subst.
+    rewrite (set_nth_same _ _ _ En). exact Hs.
+  - discriminate.
+  - discriminate.
+Qed.
+
+(* J of a packet that differs from p in the written parts only *)
+Lemma J_upd : forall p auxs outs sc, J p -> sanity_parts auxs outs sc = true -> length outs = length (p_outs p) ->
+  nodup_n sc = true -> forallb aux_reparses auxs = true -> forallb out_reparses outs = true -> J (upd p auxs outs sc).
+Proof.
+  intros p auxs outs sc [H1 [C1 C2] H3 H4 H5 H6 H7] Hs Hl Hn Ha Ho.
+  constructor; cbn; auto. split; cbn; [exact C1|rewrite Hl; exact C2].
+Qed.
+
+Lemma J_same : forall p, J p -> J (upd p (p_auxs p) (p_outs p) (g_scalars p)).
+Proof. intros p H; rewrite upd_same; exact H. Qed.
+
+(* the finalizers keep an input sane and do not touch what the parser looks at *)
+Lemma finalize_local_sane : forall c a, in_sane a = true -> in_sane (fst (finalize_local c a)) = true.
+Proof.
+  intros c a H; unfold finalize_local, finalize_taproot, finalize_witness, finalize_nonwitness.
+  unfold in_sane in *. destruct (a_w a) eqn:Ew; crush_matches; cbn [fst]; auto; cbn; rewrite ?Ew; cbn; auto;
+    try (rewrite Ew in H; exact H).
+Qed.
 
 (* ---------- the hypotheses of the theorems are satisfiable: a packet with two inputs and an output,
    signed, finalized, with a failed operation in the middle ---------- *)
@@ -883,7 +1029,6 @@ Theorem kinds_compatible : forall ins outs fb p0 ops, init ins outs fb = IOk p0 
   time_only x = true -> height_only y = true -> False.
 Proof.
   intros ins outs fb p0 ops H. apply (run_inv kc step_kc).
-  unfold init in H. destruct (add_inputs (empty_pset fb) ins) as [p|] eqn:E; [|discriminate].
-  apply new_outs_inv in H as [l' H]. apply add_outputs_inv in H as (_ & _ & _ & _ & _ & A6 & _).
+  apply init_inv in H as (_ & _ & p & E & H). apply add_outputs_inv in H as (_ & _ & _ & _ & _ & A6 & _).
   eapply cores_kc; [exact A6|]. eapply add_inputs_kc; eauto. intros x y [].
 Qed.
